@@ -1,18 +1,19 @@
 #!/bin/sh
-# usage: tools/confirm_seeded.sh <prop id> <n> : confirms in the scratch worktree /tmp/mut/<id> that patch<n> compiles,
+# usage: tools/confirm_seeded.sh <prop id> <n> [crate (default vibrato)] : confirms in the scratch worktree /tmp/mut/<id> that patch<n> compiles,
 # keeps the suite green and that demo<n> fails with it and passes without it; then stores it under /verif/seeded/<id>-<n>/
-id="$1"; n="$2"; wt=/tmp/mut/$id; out=/tmp/mut/${id}_out
+id="$1"; n="$2"; crate="${3:-vibrato}"; wt=/tmp/mut/$id; out=/tmp/mut/${id}_out
 export CARGO_NET_OFFLINE=true
 cd "$wt" || exit 2
 git checkout -q -- . ; git clean -fdq -e target
 feat=""
 grep -q "verif" "$out/demo$n.rs" && feat="--features verif-hooks"
-cp "$out/demo$n.rs" vibrato/tests/demo_$n.rs 2>/dev/null || { mkdir -p vibrato/tests; cp "$out/demo$n.rs" vibrato/tests/demo_$n.rs; }
-clean=$(cargo test --offline -p vibrato $feat --test demo_$n 2>&1 | grep -E "^test result" | head -1)
+mkdir -p $crate/tests; cp "$out/demo$n.rs" $crate/tests/demo_$n.rs
+[ "$crate" = vibrato ] || feat=""
+clean=$(cargo test --offline -p $crate $feat --test demo_$n 2>&1 | grep -E "^test result" | head -1)
 git apply "$out/patch$n.diff" || { echo "patch does not apply"; exit 2; }
 build=$(cargo build --offline -p vibrato 2>&1 | tail -1)
-withp=$(cargo test --offline -p vibrato $feat --test demo_$n 2>&1 | grep -E "^test result" | head -1)
-rm -f vibrato/tests/demo_$n.rs
+withp=$(cargo test --offline -p $crate $feat --test demo_$n 2>&1 | grep -E "^test result" | head -1)
+rm -f $crate/tests/demo_$n.rs; [ "$crate" = vibrato ] || rm -rf $crate/tests
 suite=$(cargo test --workspace --no-fail-fast --offline 2>&1 | grep -E "^test result" | awk '{p+=$4; f+=$6} END {print p" passed "f" failed"}')
 git checkout -q -- . ; git clean -fdq -e target
 echo "demo on clean tree : $clean"
